@@ -238,6 +238,8 @@ pub struct Rec {
     pub thorough: bool,
     active: bool,
     pending: String,
+    sample: u64,
+    kept: u64,
 }
 
 impl Rec {
@@ -258,6 +260,8 @@ impl Rec {
             thorough: tier == "thorough",
             active: false,
             pending: String::new(),
+            sample: std::env::var("HARNESS_SAMPLE").ok().and_then(|x| x.parse().ok()).unwrap_or(1),
+            kept: 0,
         }
     }
 
@@ -266,9 +270,14 @@ impl Rec {
     /// derive per-case generators with `case_rng`).
     pub fn case(&mut self, label: &str) -> bool {
         self.case_no += 1;
+        // optional sampling (HARNESS_SAMPLE=N keeps about one case in N, the same ones in every shard layout)
+        let keep = self.sample <= 1 || (self.case_no.wrapping_mul(0x9E3779B97F4A7C15) >> 33) % self.sample == 0;
+        if keep {
+            self.kept += 1;
+        }
         let mine = match self.only {
             Some(n) => n == self.case_no,
-            None => self.case_no % self.nshards == self.shard,
+            None => keep && self.kept % self.nshards == self.shard,
         };
         self.active = mine;
         if mine {
